@@ -587,3 +587,30 @@ func vfC14Classify(c vfC14Case) ([]string, bool) {
 func TestVerifC14Bodies(t *testing.T) {
 	verifkit.Run(t, "C14Bodies", verifkit.Spec[vfC14Case]{Gen: vfGenC14, Check: vfC14Check, Classify: vfC14Classify})
 }
+
+// TestVerifC14H2Bodies: the same body tracer behind the HTTP/2 connection wrapper (frames instead of Read/Write calls on
+// a body): bodies that end part-way through an envelope prefix, several streams, resets - one partial event with the
+// bytes actually seen, no event twice. (Borrows the exchange driver and oracle of the C15 harness.)
+func TestVerifC14H2Bodies(t *testing.T) {
+	verifkit.Run(t, "C14H2Bodies", verifkit.Spec[vfExchange]{
+		Gen: func(t *rapid.T) vfExchange {
+			ex := vfGenExchange(t)
+			for i := range ex.Streams {
+				if ex.Streams[i].ReqTail == 0 && ex.Streams[i].RespTail == 0 {
+					ex.Streams[i].ReqTail, ex.Streams[i].RespTail = rapid.IntRange(0, 4).Draw(t, "reqTail2"), rapid.IntRange(0, 4).Draw(t, "respTail2")
+				}
+			}
+			return ex
+		},
+		Check: vfC15Check,
+		Classify: func(ex vfExchange) ([]string, bool) {
+			truncated := 0
+			for _, s := range ex.Streams {
+				if s.ReqTail > 0 || s.RespTail > 0 {
+					truncated++
+				}
+			}
+			return []string{fmt.Sprintf("streams-with-truncated-body:%d", truncated)}, truncated > 0
+		},
+	})
+}
